@@ -89,6 +89,30 @@ impl Monitor for C09 {
                 ctx.check(&Case::new(ev, "boundary", &s, ph), &|c, st| self.judge(c, st));
             }
         }
+        // powers next to the range boundaries, in every spelling
+        let np = ctx.tier.pick(20_000u64, 400_000);
+        for i in 0..np {
+            if ctx.mine() {
+                let mut rng = ctx.rng("pow-boundary", i);
+                let (b, e) = pow_boundary(&mut rng);
+                let bs = i64_expr(b);
+                let (s, ph) = match rng.below(6) {
+                    0 => (format!("@^{}", e), Val::NI(b)),
+                    1 => (format!("pow({},{})", bs, e), Val::NI(0)),
+                    2 => (format!("{}{}", bs, crate::syntax::to_sup(&e.to_string())), Val::NI(0)),
+                    3 => (format!("pow(@,{})", e), Val::NI(b)),
+                    4 => (format!("{}^@", bs), Val::NI(e as i64)),
+                    _ => (format!("{}^{}", bs, e), Val::NI(0)),
+                };
+                ctx.check(&Case::new(ev, "pow-boundary", &s, ph), &|c, st| {
+                    let v = self.judge(c, st);
+                    if let Verdict::Pass { .. } = v {
+                        st.inc("pow_boundaries_confirmed");
+                    }
+                    v
+                });
+            }
+        }
         // flat chains of + and - whose running Integer total walks along +-2^63: the step that leaves the
         // range must turn the total into the Float of the operands' double values, not earlier, not later
         let nw = ctx.tier.pick(40_000u64, 800_000);
@@ -118,6 +142,19 @@ impl Monitor for C09 {
                 let f = *rng.pick(&["floor", "ceil", "round", "trunc", "truncate"][..]);
                 let s = format!("{}({})", f, num_expr(&Val::NF(x)).unwrap());
                 ctx.check(&Case::new(ev, "rounding", &s, Val::NI(0)), &|c, st| self.judge(c, st));
+            }
+        }
+        // three-level shapes f(A op B) (see gen::shape_family)
+        for (c, e) in shape_family(ev) {
+            if ctx.mine() {
+                let s = c.replace("{h}", &e);
+                ctx.check(&Case::new(ev, "shape", &s, Val::NI(0)), &|c, st| {
+                    let v = self.judge(c, st);
+                    if let Verdict::Pass { .. } = v {
+                        st.inc("shapes_confirmed");
+                    }
+                    v
+                });
             }
         }
         // random typed trees
